@@ -183,6 +183,26 @@ theorem C12_expected_mismatch_is_lib_error (p : Param) (v : PVal) (e : Err) (h :
     · cases h
     · cases h; rfl
 
+/-- **a damaged signature is the library error**: a parameter with an expected value (the four octets
+    `7777` of section 5, `BUFR` of section 0) whose octets in the stream differ from it makes the decoding
+    of the section's parameters fail with the library error, whatever the data coder and the state. -/
+theorem C12_damaged_signature_is_lib_error {α : Type} (dc : DataCoder α) (start off : Nat) (st : DecSt α)
+    (p : Param) (ps : List Param) (e v : List UInt8) (x r : Bits)
+    (hty : p.ty = .bytes) (hnb : p.nbits ≠ 0) (hex : p.expected = some e)
+    (hread : readBytes (p.nbits / 8) x = .ok (v, r)) (hne : v ≠ e) :
+    decParams dc start (p :: ps) off st x = .error .lib := by
+  have hv : decValue dc st p x = .ok ((PVal.bytes v, none), r) := by
+    simp only [decValue, hty, hnb, if_false, R.map, R.bind, readTyped, hread, R.pure]
+  have hc : checkExpected p (PVal.bytes v) = .error .lib := by
+    have : ¬ (PVal.bytes v = PVal.bytes e) := fun h => hne (by injection h)
+    simp only [checkExpected, hex, this, if_false]
+  simp only [decParams, R.bind, R.counted, hv, hc, R.lift, R.fail]
+
+/-- non-vacuity: `7776` where section 5 expects `7777` -/
+example : (match decParams (rawCoder 0) 0 [{ name := "stop_signature", nbits := 32, ty := .bytes, expected := some stopSig }] 0
+    { reg := [], acc := [], used := 0, data := none } (bytesToBits [55, 55, 55, 54]) with
+    | .error .lib => true | _ => false) = true := by decide +kernel
+
 /-! ## non-vacuity -/
 
 /-- toy decoder of `Props/C11.lean`, damaged variant: a 12-byte message whose 5th byte is 0 fails fully
